@@ -329,6 +329,7 @@ Definition step (current : bool) (L : layout) (o : op) : layout :=
   end.
 Definition run (current : bool) (h : list op) : layout := fold_left (step current) h init.
 
+Definition write_free (o : op) : bool := match o with Write _ => false | _ => true end.
 Definition writes_of (h : list op) : list row :=
   concat (map (fun o => match o with Write b => b | _ => [] end) h).
 
@@ -370,16 +371,41 @@ Fixpoint ord_ok_from (l : list file) : bool :=
   end.
 Definition layout_ok (L : layout) : bool := asc_seq (ooo L) && asc_seq (ord L) && ord_ok_from (ord L).
 
+(* every group is an adjacent run of the list it is applied to (groups are applied one after the other) *)
+Fixpoint compact_ok (grps : list (list Z)) (l : list file) : bool :=
+  match grps with
+  | [] => true
+  | g :: r => adjacent g l && compact_ok r (compact_group g l)
+  end.
+
 Definition op_ok (L : layout) (o : op) : bool :=
   match o with
   | Write _ => true
   | Flush _ so su | Reopen _ _ so su => fresh_seq so (ord L) && fresh_seq su (ooo L) && match snap L with [] => true | _ => false end
   | BeginFlush => match snap L with [] => true | _ => false end
   | EndFlush _ so su => fresh_seq so (ord L) && fresh_seq su (ooo L)
-  | Compact grps => forallb (fun g => adjacent g (ord L)) grps
+  | Compact grps => compact_ok grps (ord L)
   | MergeSelf g n => adjacent g (ooo L) && between_neighbours g n (ooo L)
-  | MergeOOO g b => is_prefix g (ooo L)
+  | MergeOOO g b => is_prefix g (ooo L) && match b with [] => false | _ => true end
   end.
+
+(* a written row carries at least one field and its field ids ascend (the harness / the line protocol sort them) *)
+Fixpoint fields_asc (fs : fields) : bool :=
+  match fs with
+  | x :: ((y :: _) as r) => (fst x <? fst y) && fields_asc r
+  | _ => true
+  end.
+Definition row_ok (r : row) : bool := nonempty r && fields_asc (snd r).
+Definition write_ok (o : op) : bool := match o with Write b => forallb row_ok b | _ => true end.
+
+(* a history is allowed when every op satisfies the planner / store predicate in the state it is applied to and the
+   layout predicate holds afterwards (both are evaluated by the correspondence on every replayed history: codes 4, 5) *)
+Fixpoint allowed_from (L : layout) (h : list op) : bool :=
+  match h with
+  | [] => true
+  | o :: r => op_ok L o && write_ok o && layout_ok (step false L o) && allowed_from (step false L o) r
+  end.
+Definition ops_allowed (h : list op) : bool := allowed_from init h.
 
 (* boolean equality of tables (for Examples and the evaluator) *)
 Fixpoint zz_list_eqb (a b : list (Z * Z)) : bool :=
